@@ -44,6 +44,15 @@ Values   operation HISTORIES with shared sub-expressions (exec_prog / gen_histor
          now, and run in queries again (roots True/False).  Everything must equal the reference of b AS BUILT (model:
          letB / binding_is_value), each derived combination the reference of its own tree, and the operand objects'
          structure (classes, operand identities) must be unchanged.
+Raising  CALLABLE PREDICATES THAT RAISE (gen_raise_case, stream "raising callables"): ordinary-looking lambdas / defs that
+         raise IndexError / KeyError / ZeroDivisionError / TypeError / ValueError / AttributeError / StopIteration /
+         AssertionError / UnicodeEncodeError / a user-defined class on '' / None / 0 / ints / unknown names / non-ASCII
+         (NATURAL = natCall of the model, NATURAL_E = natCallE for where(f)), at every position a callable may stand in,
+         through select / find / [] / `in` / x.<name> / where / upto / nth on Entry, Result, the module-level select and
+         set_parents=False containers, trees built node by node or by from_dict; PYONLY / isin / matches / nth have no
+         model counterpart and are judged by the oracle only.  Nothing may escape a pipeline: run_impl turns every
+         exception into "exc:<Class>" and oracle_select reports it as a failure with the pipeline as failing input.
+         Every final Result is also looked at through all its public views (items / check_values).
 Oracle   an independent evaluator over the plain description of the tree: a node is expected iff its
          ancestor chain satisfies the levels bottom-up; expected list = those nodes in document
          (pre-)order; roots = first-occurrence de-duplication of the ultimate ancestors of the returned
@@ -176,10 +185,100 @@ RAISERS = [_raise_value, _raise_index, _raise_key, _raise_zero, _raise_assert, _
 N_OPQ = 3 * len(RAISERS)
 
 
+# ---- NATURAL predicates: ordinary-looking callables that raise on some names / attribute values through the operation
+# that naturally raises there.  Number 100 + i is natCall i of IV/Model/Query.lean (same text, same table).
+WEIGHTS = {"a": 3, "b": 1, "A": 2, "ab": 0, 5: 7, None: 2}
+CHILDREN_WANTED = {"a": 1, "b": 2, "A": 0}
+
+
+def _nat_user(n):
+    if n == "b" or n == 0:
+        raise UserDefinedError("not for %r" % (n,))
+    return n is not None
+
+
+def _nat_assert(n):
+    assert n, "empty"
+    return n != "b"
+
+
+NATURAL = [
+    lambda n: "A" <= n[0] <= "Z",                          # 0  IndexError on '', TypeError on None / int
+    lambda n: WEIGHTS[n] >= 2,                             # 1  KeyError on a name not in the table
+    lambda n: 10 % n == 0,                                 # 2  ZeroDivisionError on 0, TypeError on str / None
+    lambda n: len(n) > 1,                                  # 3  TypeError on None / int
+    _nat_user,                                             # 4  a user-defined exception class
+    lambda n: n.index("a") >= 1,                           # 5  ValueError (not found), AttributeError on None / int
+    lambda n: next(c for c in n if c == "a") == "a",       # 6  StopIteration, TypeError on None / int
+    _nat_assert,                                           # 7  AssertionError on '' / 0 / None
+    lambda n: n,                                           # 8  never raises; the RESULT is not a bool ('' / 0 / None are false)
+    lambda n: n.encode("ascii") != b"",                    # 9  UnicodeEncodeError on non-ASCII, AttributeError on None / int
+]
+N_NAT = len(NATURAL)
+
+# predicates that have no counterpart in the model (regular expressions, int()): judged by the oracle only
+import re as _re
+
+
+class _Weird(Exception):
+    """an exception class whose own construction is unusual (no args, custom __str__)"""
+
+    def __str__(self):
+        return "weird"
+
+
+def _py_weird(n):
+    if not n:
+        raise _Weird()
+    return True
+
+
+PYONLY = [
+    lambda n: _re.search(n, "ab(") is not None,            # 200 re.error on "(", "[a", "*" ; TypeError on None / int
+    lambda n: int(n) > 3,                                  # 201 ValueError on non-numeric str, TypeError on None
+    _py_weird,                                             # 202
+    lambda n: n.attrs,                                     # 203 AttributeError on every value (names are not entries)
+    lambda n: (n + 1) > 3,                                 # 204 TypeError on str / None
+    lambda n: {"k": [1]}["k"][len(n)] == 1,                # 205 IndexError on len >= 1, TypeError on None / int
+]
+
+# callables for where(f): they are called on the ENTRY.  Number i is natCallE i of the model.
+NATURAL_E = [
+    lambda e: e.attrs[0] == "a",                           # 0  IndexError without attributes
+    lambda e: e.children[0]._name == e._name,              # 1  IndexError without children
+    lambda e: 10 % len(e.attrs) == 0,                      # 2  ZeroDivisionError without attributes
+    lambda e: e.attrs[-1] > 1,                             # 3  IndexError / TypeError (str > int, None > int)
+    lambda e: CHILDREN_WANTED[e._name] == len(e.children),  # 4  KeyError
+    lambda e: e.children,                                  # 5  never raises; the result is a list
+]
+N_NAT_E = len(NATURAL_E)
+
+
+class _Stub(object):
+    """a stand-in for an Entry built from the plain description, for the reference evaluation of where(f)"""
+
+    def __init__(self, t):
+        self._name = t["name"]
+        self.attrs = tuple(t["attrs"])
+        self.children = [_Stub(c) for c in t["children"]]
+
+
+def ref_where_fn(k, t):
+    try:
+        return bool(NATURAL_E[k](_Stub(t)))
+    except Exception:
+        return False
+
+
 def opq(k):
-    """opaque callable number k: (k + code(v)) % 3 = 0 -> False, 1 -> True, 2 -> raises; WHAT it raises depends on k // 3
+    """opaque callable number k (numbers 100.. are the NATURAL predicates, 200.. the oracle-only ones): (k + code(v)) % 3 = 0 -> False, 1 -> True, 2 -> raises; WHAT it raises depends on k // 3
     (ValueError, IndexError, KeyError, ZeroDivisionError, AssertionError, a user-defined class, StopIteration, TypeError,
     AttributeError, LookupError, OSError), through the operation that naturally raises it where there is one"""
+    if k >= 200:
+        return PYONLY[k - 200]
+    if k >= 100:
+        return NATURAL[k - 100]
+
     def f(v):
         h = (k + opq_code(v)) % 3
         if h == 2:
@@ -279,6 +378,10 @@ def tok_step(s):
         return out
     if s[0] == "W":
         return ["W"] + tok_eq(s[1])
+    if s[0] == "WF":
+        return ["WF", str(s[1])]
+    if s[0] == "A":                 # the model has no sugar: x.<name> is x["<name>"]
+        return ["G"] + tok_query(["qn", ["lit", s[1]]])
     if s[0] in ("R", "P"):
         return [s[0]]
     if s[0] == "U":
@@ -398,6 +501,8 @@ def real_bexp(b, nary=False, env=None):
         return B.pred2(FUNCS[b[1]], ignore_case=True)(b[2])
     if k == "o":
         return B.pred(opq(b[1]), ignore_case=bool(b[2]))
+    if k == "px":
+        return Q.isin(b[2]) if b[1] == "isin" else Q.matches(b[2])
     if k == "and":
         return real_bexp(b[1], False, env) & real_bexp(b[2], False, env)
     if k == "or":
@@ -515,9 +620,75 @@ def _all_entries(tops):
     return out
 
 
+class ObservationError(Exception):
+    """two public ways of looking at the same Result disagree"""
+
+
+def ref_value(e):
+    """Entry.value restated: None without attributes, the attribute if there is one, else their str() joined by ' '"""
+    a = list(e.attrs)
+    return None if not a else a[0] if len(a) == 1 else " ".join(str(x) for x in a)
+
+
+def _raises(f):
+    try:
+        f()
+    except Exception as ex:
+        return type(ex).__name__
+    return None
+
+
+def check_values(r, final):
+    """Result.values / .value / .string_value / .unique_values describe exactly the nodes of the result, in their order"""
+    if type(r) is not Result:
+        return
+    want = [v for v in (ref_value(e) for e in final) if v is not None]
+    got = r.values
+    if not isinstance(got, list) or len(got) != len(want) or any(type(x) is not type(y) or x != y for x, y in zip(got, want)):
+        raise ObservationError("values is %r for nodes whose values are %r" % (got, want))
+    try:
+        uniq = sorted(set(want))
+    except TypeError:
+        uniq = None
+    if uniq is None:
+        if _raises(lambda: r.unique_values) != "TypeError":
+            raise ObservationError("unique_values of unorderable values %r did not raise TypeError" % (want,))
+    elif r.unique_values != uniq:
+        raise ObservationError("unique_values is %r for values %r" % (r.unique_values, want))
+    if len(final) == 0:
+        if r.value is not None or r.string_value is not None:
+            raise ObservationError("value / string_value of an empty result is not None")
+    elif len(final) == 1:
+        v, sv = r.value, r.string_value
+        if type(v) is not type(ref_value(final[0])) or v != ref_value(final[0]) or sv != " ".join(str(x) for x in final[0].attrs):
+            raise ObservationError("value / string_value %r / %r of the single node with attributes %r" % (v, sv, final[0].attrs))
+    elif _raises(lambda: r.value) is None or _raises(lambda: r.string_value) is None:
+        raise ObservationError("value / string_value of a result with %d nodes did not raise" % len(final))
+
+
 def items(r):
-    """the nodes of a Result through its public protocol (len + integer indexing)"""
-    return [r[i] for i in range(len(r))]
+    """the nodes of a Result through its public protocol (len + integer indexing); negative indexes, slices and
+    iteration over .children must show the same objects"""
+    n = len(r)
+    out = [r[i] for i in range(n)]
+    if isinstance(r, Entry):
+        if n:
+            if r[-1] is not out[-1] or r[-n] is not out[0]:
+                raise ObservationError("r[-1] / r[-len] are not the last / first item")
+        sl = r[:]
+        if not isinstance(sl, (list, tuple)) or len(sl) != n or any(x is not y for x, y in zip(sl, out)):
+            raise ObservationError("r[:] differs from [r[i] for i in range(len(r))]")
+        if n >= 2:
+            a, b = r[1:], r[::-1]
+            if len(a) != n - 1 or any(x is not y for x, y in zip(a, out[1:])) or len(b) != n or \
+                    any(x is not y for x, y in zip(b, reversed(out))):
+                raise ObservationError("r[1:] / r[::-1] differ from the items by index")
+        kids = list(r.children)
+        if len(kids) != n or any(x is not y for x, y in zip(kids, out)):
+            raise ObservationError("iterating r.children differs from the items by index")
+        if bool(n) != bool(r) and type(r) is Result:
+            raise ObservationError("bool(result) is %s for %d items" % (bool(r), n))
+    return out
 
 
 def show_ids(xs, ident):
@@ -551,6 +722,20 @@ def run_impl(case, tops=None, ident=None, conf=None, env=None):
         cur = None
     plain = None
     try:
+        if start[0] in ("doc", "node"):          # positional indexing of an Entry (not a query)
+            kids = list(cur.children)
+            if len(cur) != len(kids) or any(cur[i] is not k for i, k in enumerate(kids)) or list(cur[:]) != kids or \
+                    (kids and cur[-1] is not kids[-1]):
+                raise ObservationError("entry[i] / entry[:] / len(entry) differ from entry.children")
+        elif start[0] == "conf":                  # the ConfigComponent wrappers
+            kids = list(conf.doc.children)
+            if len(conf) != len(kids) or any(conf[i] is not k for i, k in enumerate(kids)) or \
+                    any(x is not y for x, y in zip(list(iter(conf)), kids)) or len(list(iter(conf))) != len(kids) or \
+                    list(conf[:]) != kids:
+                raise ObservationError("conf[i] / conf[:] / len(conf) / iter(conf) differ from conf.doc.children")
+            secs, dirs = items(conf.sections), items(conf.directives)
+            if [k for k in kids if isinstance(k, Q.Section)] != secs or [k for k in kids if isinstance(k, Q.Directive)] != dirs:
+                raise ObservationError("conf.sections / conf.directives are not the top nodes of that type in order")
         n = len(case["steps"])
         for j, s in enumerate(case["steps"]):
             last = j == n - 1
@@ -558,30 +743,68 @@ def run_impl(case, tops=None, ident=None, conf=None, env=None):
                 qs = [real_query(q, env) for q in s[3]]
                 deep, roots = bool(s[1]), bool(s[2])
 
-                def go(ro, cur=cur, qs=qs, deep=deep):
+                shared = []      # the module-level form compiles ONCE and runs the compiled query for both calls
+
+                def go(ro, cur=cur, qs=qs, deep=deep, shared=shared):
+                    # how the options are written: as bools, as 0 / 1, or left out when False (the defaults)
+                    style = case.get("opts", "bool")
+                    conv = int if style == "int" else bool
+                    find = bool(deep and case.get("via_find") and cur is not None)
+                    kw = {}
+                    if not find and (deep or style != "omit"):
+                        kw["deep"] = conv(deep)
+                    if ro or style != "omit":
+                        kw["roots"] = conv(ro)
                     if cur is None:
-                        return Q.select(compile_queries(*qs), list(tops), deep=deep, roots=ro)
-                    if deep and case.get("via_find"):
-                        return cur.find(*qs, roots=ro)
-                    return cur.select(*qs, deep=deep, roots=ro)
+                        if not shared:
+                            shared.append(compile_queries(*qs))
+                        return Q.select(shared[0], list(tops), **kw)
+                    if find:
+                        if cur is conf and case.get("opts") == "int":
+                            return cur.find_all(*qs, **kw)
+                        return cur.find(*qs, **kw)
+                    return cur.select(*qs, **kw)
                 if last and roots:
                     plain = items(go(False))
                 nxt = go(roots)
             elif s[0] == "W":
                 nxt = real_where(cur, s, env)
+            elif s[0] == "WF":
+                nxt = cur.where(NATURAL_E[s[1]])
             elif s[0] == "R":
                 nxt = cur.roots
             elif s[0] == "P":
                 nxt = cur.parents
             elif s[0] == "U":
                 nxt = cur.upto(real_query(s[1], env))
+                if type(cur) is not Result:        # Entry.upto: one ancestor or None
+                    if nxt is not None and not isinstance(nxt, Entry):
+                        raise ObservationError("Entry.upto gave a %s" % type(nxt).__name__)
+                    nxt = Result(children=[nxt] if nxt is not None else [])
+            elif s[0] == "N":
+                nxt = cur.nth(s[1])
+            elif s[0] == "A":       # attribute sugar: cur.<name> is cur["<name>"]
+                nxt = getattr(cur, s[1])
+                if not isinstance(nxt, Result):
+                    raise ObservationError("getattr(.., %r) gave a %s, not a Result" % (s[1], type(nxt).__name__))
             else:
-                nxt = cur[real_query(s[1], env)]
+                key = real_query(s[1], env)
+                nxt = cur[key]
+                inside = key in cur
+                if inside is not (len(nxt) > 0):
+                    raise ObservationError("`key in x` is %r but x[key] has %d nodes" % (inside, len(nxt)))
             cur = nxt
-        return show_ids(items(cur), ident), plain
-    except IndexError:
-        return "err", None
-    except Exception as ex:      # anything else is not a behaviour the model has
+        final = items(cur)
+        check_values(cur, final)
+        return show_ids(final, ident), plain
+    except Exception as ex:
+        # select() without a query is an IndexError by construction ("err", the model's `none`); ANY other exception
+        # (also an IndexError that a predicate raised and the engine let through) is not a behaviour the model has:
+        # the oracle reports it as a failure with this case as the failing input
+        if isinstance(ex, IndexError) and any(s[0] == "S" and not s[3] for s in case["steps"]):
+            return "err", None
+        if isinstance(ex, ObservationError):
+            return "exc:ObservationError: %s" % ex, None
         return "exc:" + type(ex).__name__, None
 
 
@@ -598,6 +821,13 @@ def leaf_ref(b, v):
         if b[0] == "o":
             vv = v.lower() if (b[2] and isinstance(v, str)) else v
             return bool(opq(b[1])(vv))
+        if b[0] == "px":            # isin(values): membership by == ; matches(pattern): re.search finds something
+            if b[1] == "isin":
+                hash(v)
+                for x in b[2]:
+                    hash(x)
+                return any(type(x) is type(v) and x == v for x in b[2])
+            return _re.search(b[2], v) is not None
     except Exception:
         return "x"
     raise ValueError(b)
@@ -773,17 +1003,36 @@ def oracle_select(chk, case, impl, plain_ids):
         else:                          # an Entry's children / a Result's grandchildren
             nodes = [c["id"] for i in cur for c in doc.by_id[i]["children"]]
         parents_nest = kind == "result" and nests(doc, cur)
-        if s[0] == "G":
-            exp = [i for i in doc.below(nodes) if i in set(nodes) and ref_query(s[1], doc.by_id[i])]
-            deep, roots, qs = False, False, [s[1]]
+        if s[0] in ("G", "A"):
+            gq = s[1] if s[0] == "G" else ["qn", ["lit", s[1]]]
+            exp = [i for i in doc.below(nodes) if i in set(nodes) and ref_query(gq, doc.by_id[i])]
+            deep, roots, qs = False, False, [gq]
         elif s[0] == "W":           # where: the entry's children if the entry satisfies it / the result's own children that do
             if kind == "entry":
                 exp = [c["id"] for c in doc.by_id[cur[0]]["children"]] if ref_eq(s[1], doc.by_id[cur[0]]) else []
             else:
                 exp = [i for i in cur if ref_eq(s[1], doc.by_id[i])]
             deep, roots, qs = False, False, []
+        elif s[0] == "N":           # Result.nth(n): the n-th of the result's nodes below each distinct parent, parents in first-occurrence order
+            groups, order = {}, []
+            for i in cur:
+                p = doc.parent[i]
+                if p not in groups:
+                    groups[p] = []
+                    order.append(p)
+                groups[p].append(i)
+            exp = [groups[p][s[1]] for p in order if -len(groups[p]) <= s[1] < len(groups[p])]
+            deep, roots, qs = False, False, []
+        elif s[0] == "WF":          # where(f), f a plain callable called on the entry itself; a raise counts as False
+            if kind == "entry":
+                exp = [c["id"] for c in doc.by_id[cur[0]]["children"]] if ref_where_fn(s[1], doc.by_id[cur[0]]) else []
+            else:
+                exp = [i for i in cur if ref_where_fn(s[1], doc.by_id[i])]
+            deep, roots, qs = False, False, []
         elif s[0] in ("R", "P", "U"):      # Result.roots / .parents / .upto(q): first-occurrence de-duplication BY NODE
             exp = []
+            if kind == "entry" and s[0] != "U":
+                return                      # .roots / .parents are properties of a Result
             for i in cur:
                 if s[0] == "R":
                     x = doc.ultimate(i)
@@ -806,6 +1055,21 @@ def oracle_select(chk, case, impl, plain_ids):
             continue
         got_plain = plain_ids if roots else impl
         exp_s = ",".join(str(i) for i in exp) if exp else "-"
+        if not isinstance(impl, str):
+            chk.failure("the adapter got %r instead of an answer" % (impl,), case)
+            return
+        if got_plain is None:        # the run without roots did not come back: the pipeline raised
+            got_plain = impl if (impl == "err" or impl.startswith("exc:")) else "exc:no-plain-result"
+        if got_plain.startswith("exc:ObservationError: "):
+            chk.failure("two public views of the same query result disagree: %s (the nodes expected from this query: %s)"
+                        % (got_plain[len("exc:ObservationError: "):], exp_s), case)
+            chk.count("oracle:views-disagree")
+            return
+        if got_plain.startswith("exc:") or (got_plain == "err" and exp_s != "err"):
+            chk.failure("the query RAISED %s instead of returning; nothing may escape a query (a predicate that raises counts as "
+                        "not matching): the matching chains end (in document order) at %s" % (got_plain[4:] or got_plain, exp_s), case)
+            chk.count("oracle:query-raised")
+            return
         if got_plain != exp_s:
             ok_shape = got_plain != "err" and not got_plain.startswith("exc:")
             g, e = (got_plain.split(","), exp_s.split(",")) if ok_shape else ([], [])
@@ -855,6 +1119,8 @@ def impl_bool(case):
         obj = real_bexp(case["b"], bool(case.get("nary")))
         t = obj.test(case["v"])
         c = obj.to_pyfunc()(case["v"])
+        if bool(obj(case["v"])) is not bool(t):
+            return "exc:calling the Boolean differs from test()", "exc"
         return bool(t), bool(c)
     except Exception as ex:
         return "exc:" + type(ex).__name__, "exc"
@@ -902,7 +1168,7 @@ def gen_bexp(rng, depth, fam=None):
         if k < 0.85:
             return ["pi", rng.choice(OPS if rng.random() < 0.3 else ["eq", "contains", "startswith", "endswith"]),
                     rng.choice(STRS) if rng.random() < 0.85 else rng.choice(CASE_STRS)]
-        return ["o", rng.randrange(N_OPQ), rng.random() < 0.3]
+        return ["o", rng.randrange(N_OPQ) if rng.random() < 0.6 else 100 + rng.randrange(N_NAT), rng.random() < 0.3]
     if r < 0.55:
         return ["not", gen_bexp(rng, depth - 1, fam)]
     return [rng.choice(["and", "or"]), gen_bexp(rng, depth - 1, fam), gen_bexp(rng, depth - 1, fam)]
@@ -919,7 +1185,7 @@ def gen_nq(rng, names, attr=False):
         return ["lit", rng.choice(names) if rng.random() < 0.9 else rng.choice(INTS)]
     if r < 0.9:
         return ["b", gen_bexp(rng, rng.choice([0, 1, 1, 2, 3]), fam)]
-    return ["f", rng.randrange(N_OPQ)]
+    return ["f", rng.randrange(N_OPQ) if rng.random() < 0.5 else 100 + rng.randrange(N_NAT)]
 
 
 def gen_eq(rng, names, depth):
@@ -1025,7 +1291,7 @@ def gen_sel_case(rng, max_nodes):
     else:
         steps.append(sel_step(True))
     maybe_tail(rng, steps, names, start)
-    return {"start": start, "docs": docs, "steps": steps, "via_find": rng.random() < 0.5}
+    return {"start": start, "docs": docs, "steps": steps, "via_find": rng.random() < 0.5, "opts": rng.choice(["bool", "bool", "int", "omit"])}
 
 
 def maybe_tail(rng, steps, names, start, p=0.12):
@@ -1046,6 +1312,263 @@ def maybe_tail(rng, steps, names, start, p=0.12):
             if q[0] == "qn" and q[1][0] == "lit" and q[1][1] is None:
                 q = ["qn", ["any"]]
             steps.append(["U", q])
+
+
+RAISE_VALUES = ["a", "b", "A", "ab", "c", "", "", None, None, 0, 0, 5, "é", "Listen", "ba", 2, -5, 10, "straße", "İ"]
+REGEX_VALUES = ["(", "[a", "*", "a", "b+", "a|", "\\", "12", "7", ""]
+
+
+PX_PATTERNS = ["a", "^a", "b$", "[ab]+", "(", "[a", "", "A|é", "\\d+", "^$", "*", "^.{2}$"]
+
+
+def gen_bexp_px(rng, depth):
+    """boolean expressions over isin(values) / matches(pattern) leaves (no model counterpart) and ordinary leaves"""
+    if depth <= 0 or rng.random() < 0.35:
+        k = rng.random()
+        if k < 0.35:
+            return ["px", "isin", [rng.choice(RAISE_VALUES) for _ in range(rng.choice([0, 1, 2, 3, 4]))]]
+        if k < 0.7:
+            return ["px", "matches", rng.choice(PX_PATTERNS)]
+        return gen_bexp(rng, 0)
+    if rng.random() < 0.3:
+        return ["not", gen_bexp_px(rng, depth - 1)]
+    return [rng.choice(["and", "or"]), gen_bexp_px(rng, depth - 1), gen_bexp_px(rng, depth - 1)]
+
+
+def sugar_name(n):
+    """x.<n> is x["<n>"]: identifiers that are not members of Entry / Result (and not the special `name`)"""
+    return isinstance(n, str) and n.isidentifier() and n != "name" and not n.startswith("__") and \
+        not hasattr(Result, n) and not hasattr(Q.Section, n) and n not in Entry.__slots__
+
+
+DICT_KEYS = ["a", "b", "A", "ab", "c", "", "Listen", "ba", "é", "10", "x y", "straße"]
+
+
+def gen_dict(rng, depth=0, budget=None):
+    """a JSON-like document for from_dict: nested dicts, lists of dicts (several entries of one name), lists of
+    scalars (attributes; [] = none), scalars incl. None / 0 / ''"""
+    budget = budget if budget is not None else [rng.randint(4, 20)]
+    d = {}
+    for k in rng.sample(DICT_KEYS, rng.choice([1, 2, 3, 4])):
+        if budget[0] <= 0:
+            break
+        budget[0] -= 1
+        r = rng.random()
+        if depth < 3 and r < 0.3:
+            d[k] = gen_dict(rng, depth + 1, budget)
+        elif depth < 3 and r < 0.45:
+            d[k] = [gen_dict(rng, depth + 1, budget) for _ in range(rng.choice([1, 2, 3]))]
+        elif r < 0.6:
+            d[k] = [rng.choice(RAISE_VALUES) for _ in range(rng.choice([0, 1, 2, 3]))]
+        else:
+            d[k] = rng.choice(RAISE_VALUES)
+    return d
+
+
+def build_case(c):
+    """the real trees of a case: built by from_dict when the case carries a document, else node by node"""
+    if c.get("from_dict") is not None:
+        top = Q.from_dict(c["from_dict"])
+        ident = {}
+        desc = describe(top, ident, [0])
+        return dict(c, docs=[desc]), [top], ident
+    tops, ident, _k = build_entries(c["docs"])
+    return c, tops, ident
+
+
+def gen_raise_case(rng, pyonly=False, docs=None):
+    """
+    CALLABLE PREDICATES THAT RAISE, on purpose: small forests whose names and attribute values are the inputs on which
+    the NATURAL predicates raise ('' / None / 0 / ints / names not in the table / non-ASCII) next to inputs on which they
+    return True and False, and queries that put such a callable at every position a callable may stand in: bare name
+    query, 1-tuple, tuple with one / several attribute callables, next to literals, inside pred(f) (plain and
+    ignore_case) under ~ & |, inside any_/all_/child_query and their combinations, as argument of where() (called on
+    the entry) and of upto(); run through select / find / [] / where / upto on Entry, Result, the module-level select
+    and set_parents=False containers, every (deep, roots), 1-3 levels.  pyonly: predicates without a model
+    counterpart (re.search on names that are broken patterns, int(), ...), judged by the oracle only.
+    """
+    values = RAISE_VALUES + (REGEX_VALUES if pyonly else [])
+    names = rng.sample(values, rng.choice([3, 4, 5, 6]))
+    if pyonly and rng.random() < 0.7:
+        names += rng.sample(REGEX_VALUES, 2)
+    if docs is not None:
+        names = sorted(set(t["name"] for t in Doc(docs).by_id.values() if isinstance(t["name"], str))) or ["a"]
+    budget = [rng.randint(4, 22)]
+    nid = [0]
+
+    def node(depth, top=False):
+        i = nid[0]
+        nid[0] += 1
+        budget[0] -= 1
+        name = (None if rng.random() < 0.6 else rng.choice(names)) if top else rng.choice(names)
+        attrs = [] if top and rng.random() < 0.7 else [rng.choice(values) for _ in range(rng.choice([0, 1, 1, 2, 3]))]
+        t = {"id": i, "name": name, "attrs": attrs, "children": []}
+        kmax = 0 if depth >= 4 else rng.choice([0, 1, 2, 3]) if not top else rng.choice([2, 3, 4])
+        for _ in range(kmax):
+            if budget[0] <= 0:
+                break
+            t["children"].append(node(depth + 1))
+        return t
+    if docs is None:
+        docs = [node(0, True) for _ in range(rng.choice([1, 1, 2]))]
+
+    def fk():
+        if pyonly and rng.random() < 0.7:
+            return 200 + rng.randrange(len(PYONLY))
+        return 100 + rng.randrange(N_NAT) if rng.random() < 0.9 else rng.randrange(N_OPQ)
+
+    def fq():
+        return ["f", fk()]
+
+    def bq():       # pred(f) as a Boolean: plain / ignore_case, alone, negated, combined
+        leaf = ["o", fk(), rng.random() < 0.3]
+        k = rng.random()
+        if k < 0.4:
+            return ["b", leaf]
+        if k < 0.6:
+            return ["b", ["not", leaf]]
+        other = ["p", rng.choice(OPS), rng.choice([v for v in values if v is not None])]
+        if pyonly and rng.random() < 0.5:
+            other = gen_bexp_px(rng, 0)
+        pair = [leaf, other] if rng.random() < 0.5 else [other, leaf]
+        return ["b", [rng.choice(["and", "or"])] + pair]
+
+    def cq():       # a callable-bearing name / attribute query
+        return fq() if rng.random() < 0.75 else bq()
+
+    def lit(attr=False):
+        v = rng.choice(values if attr else names)
+        if v is None and not attr:
+            return ["any"]          # a None in name position IS the match-anything query
+        return ["lit", v]
+
+    def eqq(depth=1):
+        k = rng.random()
+        if depth > 0 and k < 0.3:
+            j = rng.random()
+            if j < 0.3:
+                return ["enot", eqq(depth - 1)]
+            return [rng.choice(["eand", "eor"]), eqq(depth - 1), eqq(depth - 1)]
+        if k < 0.55:
+            return ["anyA", cq()]
+        if k < 0.75:
+            return ["allA", cq()]
+        a = None if rng.random() < 0.5 else (cq() if rng.random() < 0.7 else lit(True))
+        if a == ["lit", None]:
+            a = None
+        return ["child", cq() if (a is None or rng.random() < 0.6) else rng.choice([["any"], lit()]), a]
+
+    def rq():
+        k = rng.random()
+        if k < 0.28:
+            return ["qn", cq()]
+        if k < 0.36:
+            return ["qt", cq(), []]
+        if k < 0.5:
+            return ["qt", cq(), [cq()]]
+        if k < 0.62:
+            return ["qt", rng.choice([["any"], lit()]), [cq() for _ in range(rng.choice([1, 2, 3]))]]
+        if k < 0.74:
+            alts = [cq(), lit(True)] + ([cq()] if rng.random() < 0.4 else [])
+            rng.shuffle(alts)
+            return ["qt", rng.choice([["any"], cq()]), alts]
+        if k < 0.86:
+            return ["qte", rng.choice([["any"], cq(), lit()]), eqq()]
+        return ["qe", eqq()]
+
+    def level():
+        k = rng.random()
+        if k < 0.4:
+            return rq()
+        if k < 0.85:
+            return ["qn", ["any"]]
+        return ["qn", lit()]
+
+    def as_key(q):
+        if q[0] == "qn" and q[1][0] == "lit" and isinstance(q[1][1], int):
+            return ["qt", q[1], []]
+        return q
+
+    r = rng.random()
+    start = "doc %d" % rng.randrange(len(docs)) if r < 0.4 else "res" if r < 0.65 else "fn" if r < 0.78 else \
+        "choose" if r < 0.86 else "node %d" % rng.choice(Doc(docs).order)
+    steps = []
+    flat = start in ("fn", "choose")
+    sugar = [n for n in names if sugar_name(n)]
+    if start.startswith("node") and rng.random() < 0.3:        # Entry.upto(q) straight from an inner entry
+        case = {"start": start, "docs": docs, "steps": [["U", as_key(rq())]], "via_find": False, "opts": "bool"}
+        if pyonly:
+            case["pyonly"] = True
+        return case
+    if not flat and rng.random() < 0.35:
+        k = rng.random()
+        steps.append(["G", as_key(level())] if k < 0.3 else ["S", rng.random() < 0.5, False, [level()]] if k < 0.7 else
+                     ["WF", rng.randrange(N_NAT_E)] if k < 0.85 or not sugar else ["A", rng.choice(sugar)])
+    k = rng.random()
+    if not flat and sugar and k < 0.05:
+        steps.append(["A", rng.choice(sugar)])
+    elif flat or k < 0.5:
+        nlev = rng.choice([1, 1, 1, 2, 2, 3])
+        qs = [level() for _ in range(nlev - 1)] + [rq()]
+        if rng.random() < 0.3:
+            rng.shuffle(qs)
+        steps.append(["S", rng.random() < 0.5, rng.random() < 0.4, qs])
+    elif k < 0.68:
+        steps.append(["G", as_key(rq())])
+    elif k < 0.8:
+        e = eqq(2)
+        steps.append(["W", e, "obj"])
+    else:
+        steps.append(["WF", rng.randrange(N_NAT_E)])
+    last = steps[-1]
+    if not (last[0] == "S" and last[2]) and rng.random() < 0.3:
+        k = rng.random()
+        steps.append(["U", as_key(rq())] if k < 0.7 else ["R"] if k < 0.85 else ["P"])
+    elif pyonly and not (last[0] == "S" and last[2]) and rng.random() < 0.3:
+        steps.append(["N", rng.choice([0, 0, 1, -1, 2, -2])])
+    case = {"start": start, "docs": docs, "steps": steps, "via_find": rng.random() < 0.5, "opts": rng.choice(["bool", "int", "omit"])}
+    if pyonly:
+        case["pyonly"] = True
+    return case
+
+
+def uses_pyonly(x):
+    if isinstance(x, list):
+        if len(x) >= 2 and x[0] in ("f", "o") and isinstance(x[1], int) and x[1] >= 200:
+            return True
+        if len(x) == 3 and x[0] == "px":
+            return True
+        if len(x) == 2 and x[0] == "N":
+            return True
+        return any(uses_pyonly(y) for y in x)
+    return False
+
+
+def raising_inputs(case):
+    """number of (callable, value) pairs of the case on which the callable raises: what makes the case non-trivial"""
+    vals = set()
+    for t in Doc(case["docs"]).by_id.values():
+        vals.add(("v", t["name"]))
+        for a in t["attrs"]:
+            vals.add(("v", a))
+    ks = set()
+
+    def walk(x):
+        if isinstance(x, list):
+            if len(x) >= 2 and x[0] in ("f", "o") and isinstance(x[1], int):
+                ks.add(x[1])
+            for y in x:
+                walk(y)
+    walk(case["steps"])
+    n = 0
+    for k in ks:
+        f = opq(k)
+        for _, v in vals:
+            try:
+                f(v)
+            except Exception:
+                n += 1
+    return n
 
 
 def gen_identical_case(rng):
@@ -2074,6 +2597,18 @@ def run(chk):
             for c, i in list(zip(cases, impl))[5:8]:
                 chk.sample({"bool": c, "test,compiled,strict,nonraising": i})
 
+    # ---- stream 1b: isin(values) / matches(pattern) leaves (not in the model): interpreted = compiled = reference
+    for _ in range(1500 if quick else 40000):
+        c = {"b": gen_bexp_px(rng, rng.choice([0, 1, 2, 2, 3])), "v": rng.choice(RAISE_VALUES + REGEX_VALUES + STRS), "nary": rng.random() < 0.3}
+        t, cc = impl_bool(c)
+        chk.case(hash(case_key(c)), True)
+        nr = non_raising(c["b"], c["v"])
+        chk.count("bool-px:%s" % ("non-raising" if nr else "raises"))
+        if isinstance(t, bool):
+            oracle_bool(chk, c, t, cc)
+        else:
+            chk.failure("building / evaluating the expression raised %s" % t, {"kind": "bool", "case": c})
+
     # ---- stream 2: select / find / [] on generated Entry forests
     seen = set()
     for lo in range(0, n_sel, BATCH):
@@ -2100,6 +2635,44 @@ def run(chk):
         if lo == 0:
             for c, i in list(zip(cases, impls))[3:5]:
                 chk.sample({"select": {"start": c["start"], "steps": c["steps"], "nodes": len(Doc(c["docs"]).order)}, "impl": i[0]})
+
+    # ---- stream 2f: callable predicates that RAISE (every exception class, every position, every entry point)
+    n_raise = 2500 if quick else 40000
+    n_pyonly = 500 if quick else 8000
+    seen = set()
+    for lo in range(0, n_raise + n_pyonly, BATCH):
+        cases, impls = [], []
+        for j in range(lo, min(lo + BATCH, n_raise + n_pyonly)):
+            if j < n_raise and rng.random() < 0.15:      # the tree is built by from_dict (tuple children, list values as attributes)
+                d = gen_dict(rng)
+                c0, tops, ident = build_case({"from_dict": d})
+                c = gen_raise_case(rng, docs=c0["docs"])
+                c["from_dict"] = d
+                chk.count("raise:tree built by from_dict")
+            else:
+                c = gen_raise_case(rng, pyonly=j >= n_raise)
+                tops, ident, _k = build_entries(c["docs"])
+            a, plain = run_impl(c, tops, ident)
+            cases.append(c)
+            impls.append((a, plain_ids(plain, ident)))
+            k = hash(case_key(c))
+            nr = raising_inputs(c)
+            chk.case(k, nr > 0 and k not in seen)
+            seen.add(k)
+            chk.count("raise:%s" % ("oracle-only predicates" if uses_pyonly(c["steps"]) else "modelled predicates"))
+            chk.count("raise:start-%s" % c["start"].split()[0])
+            chk.count("raise:last-%s" % c["steps"][-1][0])
+            chk.count("raise:(callable, value) pairs that raise", nr)
+            chk.count("raise:result-%s" % ("empty" if a == "-" else "exc" if a.startswith("exc") else a if a == "err" else "nodes"))
+        tied = [(c, i) for c, i in zip(cases, impls) if not uses_pyonly(c["steps"])]
+        model = model_sel([c for c, _ in tied])
+        chk.compare("raising callables: select/find/[]/where/upto", [c for c, _ in tied], [i[0] for _, i in tied], model,
+                    show=lambda c: {"kind": "sel", "case": c})
+        for c, (a, plain) in zip(cases, impls):
+            oracle_select(chk, c, a, plain)
+        if lo == 0:
+            chk.sample({"raising": {"start": cases[1]["start"], "steps": cases[1]["steps"], "nodes": len(Doc(cases[1]["docs"]).order)},
+                        "impl": impls[1][0]})
 
     # ---- stream 2a: identity vs content — forests with structurally identical (deep-copied) trees and subtrees
     a_, b_ = Entry("x", ("v", 1), [Entry("y", ("z",))]), Entry("x", ("v", 1), [Entry("y", ("z",))])
@@ -2240,7 +2813,7 @@ def run(chk):
                                for _ in range(rng.choice([1, 2, 2, 3]))]]]
                     if rng.random() < 0.25:
                         steps.insert(0, ["S", True, False, [["qn", ["lit", rng.choice(names)]]]])
-                c = {"start": "conf", "docs": [desc], "steps": steps, "via_find": rng.random() < 0.5, "text": text}
+                c = {"start": "conf", "docs": [desc], "steps": steps, "via_find": rng.random() < 0.5, "text": text, "opts": rng.choice(["bool", "int", "omit"])}
                 a, plain = run_impl(c, [conf.doc], ident, conf=conf)
                 cases.append(c)
                 impls.append((a, plain_ids(plain, ident)))
@@ -2319,7 +2892,7 @@ def replay(data):
     elif kind == "bool":
         print("replaying boolean expression", json.dumps(c, ensure_ascii=False))
         t, cc = impl_bool(c)
-        m = driver([bool_line(c)])[0]
+        m = "(no model counterpart)" if uses_pyonly(c["b"]) else driver([bool_line(c)])[0]
         print("impl test()=%s to_pyfunc()()=%s | reference strict=%s nonraising=%s | model interp,compiled,evalC,nonRaising=%s" % (
             t, cc, fmt(strict_ref(c["b"], c["v"])), non_raising(c["b"], c["v"]), m))
         if isinstance(t, bool):
@@ -2338,9 +2911,9 @@ def replay(data):
             a, plain = run_impl(c, [conf.doc], ident, conf=conf)
             m = model_sel([c], start="doc 0")[0]
         else:
-            tops, ident, _k = build_entries(c["docs"])
+            c, tops, ident = build_case(c)
             a, plain = run_impl(c, tops, ident)
-            m = model_sel([c])[0]
+            m = "(no model counterpart)" if uses_pyonly(c["steps"]) else model_sel([c])[0]
         print("impl returned %s   model %s" % (a, m))
         oracle_select(rec, c, a, plain_ids(plain, ident))
     known = set()
